@@ -22,7 +22,7 @@ theorem okBL_iff (b : Bound) (cs : List Tmpl) : okBL b cs = true ↔ ∀ c ∈ c
   | cons c cs ih => simp [okBL, ih]
 
 section
-variable (W : Nat → Bool)
+variable (W : Cfg)
 
 theorem okBL_shapeL (b : Bound) (cands vs : List Tmpl)
     (ih : ∀ c ∈ cands, ∀ v, okB b c = true → shapeT W c v = true → okB b v = true)
@@ -80,6 +80,60 @@ theorem okB_shape (b : Bound) (t : Tmpl) : ∀ v, okB b t = true → shapeT W t 
         obtain ⟨rfl, rfl, rfl⟩ := hs
         simp [okB, hok]
       · cases hs
+  | hcustom tag cid => intro v hok _; simp [okB] at hok
+
+/-- The same hooks, no filter. -/
+def allOf (W : Cfg) : Cfg := { W with sel := fun _ => true }
+
+theorem allOf_sel (W : Cfg) (tag : Nat) : (allOf W) tag = true := rfl
+
+theorem plainL_iff (ks : List Tmpl) : plainL ks = true ↔ ∀ k ∈ ks, plainT k = true := by
+  induction ks with
+  | nil => simp [plainL]
+  | cons a as ih => simp [plainL, ih]
+
+theorem plain_wf (v : Tmpl) : plainT v = true → wfT v = true := by
+  induction v using Tmpl.ind_t with
+  | hconst a => intro _; simp [wfT]
+  | hnode l kids ih =>
+    intro h
+    simp only [plainT] at h
+    simp only [wfT]
+    rw [wfL_iff]
+    exact fun k hk => ih k hk ((plainL_iff kids).mp h k hk)
+  | hchoice tag one k cands dst so _ => intro h; simp [plainT] at h
+  | hfloat tag lo hi => intro h; simp [plainT] at h
+  | hcustom tag cid => intro h; simp [plainT] at h
+
+/-- A value without placeholders has exactly one shape: itself. -/
+theorem plain_shape_eq (X : Cfg) (v : Tmpl) : plainT v = true → ∀ v2, shapeT X v v2 = true → v2 = v := by
+  induction v using Tmpl.ind_t with
+  | hconst a =>
+    intro _ v2 h
+    cases v2 <;> simp [shapeT] at h
+    subst h; rfl
+  | hnode l kids ih =>
+    intro hp v2 h
+    simp only [plainT] at hp
+    cases v2 <;> simp [shapeT] at h
+    rename_i l2 vs2
+    obtain ⟨rfl, hs⟩ := h
+    congr 1
+    have hk := (plainL_iff kids).mp hp
+    clear hp
+    induction kids generalizing vs2 with
+    | nil => cases vs2 <;> simp [shapeL] at hs ⊢
+    | cons k ks ihk =>
+      cases vs2 with
+      | nil => simp [shapeL] at hs
+      | cons x xs =>
+        simp only [shapeL, Bool.and_eq_true] at hs
+        rw [ih k (List.mem_cons_self ..) (hk k (List.mem_cons_self ..)) x hs.1,
+          ihk (fun k' hk' => ih k' (List.mem_cons_of_mem _ hk')) xs hs.2
+            (fun k' hk' => hk k' (List.mem_cons_of_mem _ hk'))]
+  | hchoice tag one k cands dst so _ => intro h; simp [plainT] at h
+  | hfloat tag lo hi => intro h; simp [plainT] at h
+  | hcustom tag cid => intro h; simp [plainT] at h
 
 /-! ### A decoded value is a well-formed template again -/
 
@@ -149,15 +203,21 @@ theorem wfT_shape (t : Tmpl) : ∀ v, wfT t = true → shapeT W t v = true → w
       split at hs
       · simp [wfT]
       · cases hs
-
+  | hcustom tag cid =>
+    intro v _ hs
+    by_cases hW : W tag = true
+    · simp only [shapeT, hW, if_true] at hs
+      exact plain_wf v hs
+    · simp only [shapeT, hW, Bool.false_eq_true, if_false] at hs
+      split at hs
+      · simp [wfT]
+      · cases hs
 
 /-! ### Two-stage decoding: the second stage stays within the shape of the original template -/
 
-def allTags : Nat → Bool := fun _ => true
-
 theorem anyShape_zip (cands vs : List Tmpl) (x : Tmpl)
-    (ih : ∀ c ∈ cands, ∀ v v2, shapeT W c v = true → shapeT allTags v v2 = true → shapeT allTags c v2 = true)
-    (hs : shapeL W cands vs = true) (hx : anyShape allTags vs x = true) : anyShape allTags cands x = true := by
+    (ih : ∀ c ∈ cands, ∀ v v2, shapeT W c v = true → shapeT (allOf W) v v2 = true → shapeT (allOf W) c v2 = true)
+    (hs : shapeL W cands vs = true) (hx : anyShape (allOf W) vs x = true) : anyShape (allOf W) cands x = true := by
   induction cands generalizing vs with
   | nil => cases vs <;> simp [shapeL, anyShape] at hs hx
   | cons c cs ihl =>
@@ -171,8 +231,8 @@ theorem anyShape_zip (cands vs : List Tmpl) (x : Tmpl)
       · exact Or.inr (ihl vs (fun c' hc' => ih c' (List.mem_cons_of_mem _ hc')) hs.2 hx)
 
 theorem shapeL_comp (ts vs vs2 : List Tmpl)
-    (ih : ∀ c ∈ ts, ∀ v v2, shapeT W c v = true → shapeT allTags v v2 = true → shapeT allTags c v2 = true)
-    (h1 : shapeL W ts vs = true) (h2 : shapeL allTags vs vs2 = true) : shapeL allTags ts vs2 = true := by
+    (ih : ∀ c ∈ ts, ∀ v v2, shapeT W c v = true → shapeT (allOf W) v v2 = true → shapeT (allOf W) c v2 = true)
+    (h1 : shapeL W ts vs = true) (h2 : shapeL (allOf W) vs vs2 = true) : shapeL (allOf W) ts vs2 = true := by
   induction ts generalizing vs vs2 with
   | nil =>
     cases vs with
@@ -189,8 +249,8 @@ theorem shapeL_comp (ts vs vs2 : List Tmpl)
         exact ⟨ih c (List.mem_cons_self ..) v v2 h1.1 h2.1,
           ihl vs vs2 (fun c' hc' => ih c' (List.mem_cons_of_mem _ hc')) h1.2 h2.2⟩
 
-theorem shape_comp (t : Tmpl) : ∀ v v2, shapeT W t v = true → shapeT allTags v v2 = true →
-    shapeT allTags t v2 = true := by
+theorem shape_comp (t : Tmpl) : ∀ v v2, shapeT W t v = true → shapeT (allOf W) v v2 = true →
+    shapeT (allOf W) t v2 = true := by
   induction t using Tmpl.ind_t with
   | hconst a =>
     intro v v2 h1 h2
@@ -214,8 +274,8 @@ theorem shape_comp (t : Tmpl) : ∀ v v2, shapeT W t v = true → shapeT allTags
       | true =>
         simp only [if_true] at h1
         obtain ⟨c, hc, hsc⟩ := anyShape_mem W cands v h1
-        simp only [shapeT, allTags, if_true]
-        exact anyShape_of_mem allTags cands c v2 hc (ih c hc v v2 hsc h2)
+        simp only [shapeT, allOf_sel, if_true]
+        exact anyShape_of_mem (allOf W) cands c v2 hc (ih c hc v v2 hsc h2)
       | false =>
         simp only [Bool.false_eq_true, if_false] at h1
         split at h1
@@ -224,8 +284,8 @@ theorem shape_comp (t : Tmpl) : ∀ v v2, shapeT W t v = true → shapeT allTags
           cases v2 <;> simp [shapeT] at h2
           rename_i l2 vs2
           obtain ⟨rfl, h2⟩ := h2
-          have hlen := shapeL_length allTags vs vs2 h2
-          simp only [shapeT, allTags, if_true, Bool.false_eq_true, if_false, Bool.and_eq_true,
+          have hlen := shapeL_length (allOf W) vs vs2 h2
+          simp only [shapeT, allOf_sel, if_true, Bool.false_eq_true, if_false, Bool.and_eq_true,
             decide_eq_true_eq, List.all_eq_true]
           refine ⟨by omega, ?_⟩
           -- pointwise: x2 at position i has the shape of vs[i], which has the shape of a candidate
@@ -245,7 +305,7 @@ theorem shape_comp (t : Tmpl) : ∀ v v2, shapeT W t v = true → shapeT allTags
               intro x hx
               rcases List.mem_cons.mp hx with rfl | hx'
               · obtain ⟨c, hc, hsc⟩ := anyShape_mem W cands y (hall y (List.mem_cons_self ..))
-                exact anyShape_of_mem allTags cands c x hc (ih c hc y x hsc h2.1)
+                exact anyShape_of_mem (allOf W) cands c x hc (ih c hc y x hsc h2.1)
               · exact ihv ys2 h2.2 (fun z hz => hall z (List.mem_cons_of_mem _ hz)) x hx'
         · cases h1
     · simp only [shapeT, hW, Bool.false_eq_true, if_false] at h1
@@ -253,7 +313,7 @@ theorem shape_comp (t : Tmpl) : ∀ v v2, shapeT W t v = true → shapeT allTags
       · rename_i tag' one' k' vs d' s'
         simp only [Bool.and_eq_true, decide_eq_true_eq] at h1
         obtain ⟨⟨rfl, rfl, rfl, rfl, rfl⟩, hsl⟩ := h1
-        simp only [shapeT, allTags, if_true] at h2 ⊢
+        simp only [shapeT, allOf_sel, if_true] at h2 ⊢
         cases one with
         | true =>
           simp only [if_true] at h2 ⊢
@@ -274,12 +334,25 @@ theorem shape_comp (t : Tmpl) : ∀ v v2, shapeT W t v = true → shapeT allTags
       · rename_i x
         cases v2 <;> simp [shapeT] at h2
         subst h2
-        simpa [shapeT, allTags] using h1
+        simpa [shapeT, allOf_sel] using h1
       · cases h1
     · simp only [shapeT, hW, Bool.false_eq_true, if_false] at h1
       split at h1
       · simp only [decide_eq_true_eq] at h1
         obtain ⟨rfl, rfl, rfl⟩ := h1
+        exact h2
+      · cases h1
+  | hcustom tag cid =>
+    intro v v2 h1 h2
+    by_cases hW : W tag = true
+    · simp only [shapeT, hW, if_true] at h1
+      have := plain_shape_eq (allOf W) v h1 v2 h2
+      subst this
+      simpa [shapeT, allOf_sel] using h1
+    · simp only [shapeT, hW, Bool.false_eq_true, if_false] at h1
+      split at h1
+      · simp only [decide_eq_true_eq] at h1
+        obtain ⟨rfl, rfl⟩ := h1
         exact h2
       · cases h1
 
